@@ -227,6 +227,24 @@ class TPAnalysis:
         re = [r for r in eng.reacquire]
         self.add('TP.9', not re, 'no mutex re-acquired while held', re[0][1] if re else '', '' if not re else f'{re[0][0][2]} acquired while already held (self-deadlock) via {" > ".join(re[0][2][-3:])}')
         self.n_access = len(eng.accesses)
+        # user code under the pool's locks: a callable member (a callback option) invoked while m_queueMutex / m_poolMutex is held can call back
+        # into the pool, whose every operation takes these non-recursive mutexes
+        c_ = self.facts.cls(TP) or {'fields': []}
+        fn_fields = {x['name'] for x in c_['fields'] if 'std::function<' in (x.get('ctype') or '')}
+        seen_cb = set()
+        for a in eng.accesses:
+            if a.cls != TP or a.field not in fn_fields or a.node is None: continue
+            held = sorted({t[2] for t in a.locks if t[2] in ('m_queueMutex', 'm_poolMutex')})
+            g = next((h for h in self.facts.fns if h.name == a.fn), None)
+            if g is None: continue
+            pm = common.parent_map(g); x = a.node; par = pm.get(x.id)
+            while par is not None and par.k in ('cast', 'paren', 'materialize'): x = par; par = pm.get(x.id)
+            called = par is not None and par.k == 'call' and (par.d.get('ck') == 'op' or 'operator()' in (par.calleeq or '')) and '()' in (par.d.get('op') or par.calleeq or '')
+            if not called or a.site in seen_cb: continue
+            seen_cb.add(a.site)
+            self.add('TP.9', not held, f'the callback `{a.field}` is invoked with none of the pool\'s mutexes held', a.site,
+                     '' if not held else f'`{a.field}` (user code) is called at {a.site} while {", ".join(held)} is held: a callback that uses the pool (start(), clear(), …) locks the same non-recursive mutex again — '
+                     'the thread blocks for ever while owning it, every other operation on the pool blocks behind it and stop() never returns')
 
     # ---- worker loop: TP.1, TP.3 (take end), TP.7 -------------------------------------------------------------------------
     def worker(self):
